@@ -46,8 +46,8 @@ impl Scenario for PairScenario {
 
     fn runs(&self, tier: Tier) -> u64 {
         match tier {
-            Tier::Quick => 10_000,
-            Tier::Thorough => 200_000,
+            Tier::Quick => 30_000,
+            Tier::Thorough => 800_000,
         }
     }
 
@@ -386,8 +386,8 @@ impl Scenario for ScriptedScenario {
 
     fn runs(&self, tier: Tier) -> u64 {
         match tier {
-            Tier::Quick => 5_000,
-            Tier::Thorough => 100_000,
+            Tier::Quick => 15_000,
+            Tier::Thorough => 400_000,
         }
     }
 
